@@ -463,6 +463,14 @@ func (e *SpecEnv) modTargets(x ast.Expr, text string) []modEntry {
 						g.arrReg[l.arr] = l.es
 						return []modEntry{{l.arr, "0", text}}
 					}
+					if gd, ok := g.cs.Ghosts[p.Path()+"::"+x.Sel.Name]; ok {
+						ge := *e
+						ge.pkg = p
+						t := ge.resolveType(gd.Type)
+						l := g.globalLoc("ghost:"+p.Path()+"."+x.Sel.Name, t)
+						g.arrReg[l.arr] = l.es
+						return []modEntry{{l.arr, "0", text}}
+					}
 				}
 			}
 		}
